@@ -390,7 +390,7 @@ def check(ctx):
 
 
 VARIANTS = [
-    M("count-run-swallows-upstream-errors", "lena/flow/elements.py", "            except StopIteration:\n", "            except Exception:\n", ["C01-e"], nth=0),
+    M("count-run-swallows-upstream-errors", "lena/flow/elements.py", "        except StopIteration:\n", "        except Exception:\n", ["C01-e"], nth=0),
     M("run-reversed", "lena/core/sequence.py", "        for el in self._data_seq:\n            flow = el.run(flow)", "        for el in reversed(self._data_seq):\n            flow = el.run(flow)", ["C01-a"]),
     M("run-skips-last", "lena/core/sequence.py", "        for el in self._data_seq:\n            flow = el.run(flow)", "        for el in self._data_seq[:-1]:\n            flow = el.run(flow)", ["C01-a"]),
     M("run-raw-input", "lena/core/sequence.py", "        flow = functions.flow_to_iter(flow)\n\n        for el in self._data_seq:", "        for el in self._data_seq:", ["C01-a"]),
